@@ -57,7 +57,7 @@ def job(spec):
         path = d / f"c18_{spec['id']}_{fi}.sf"
         N = S * nsblk - int(f.get("short", 0))           # NSTOT: the last row may be only partly filled
         pfits_fixture.make_pfits(path, raw, scl, offs, wts, nbits=nbits, freqs=freqs, pol_type=ptype, tbin=f["tbin_micro"] / 1e6,
-                                 zero_off=(int(zo) if f.get("zo_int") else float(zo)), nstot=N)
+                                 zero_off=(int(zo) if f.get("zo_int") else float(zo)), nstot=N, chan_bw=f.get("bwmode"))
         hdr = {"raw": raw.tolist(), "scl": scl.tolist(), "offs": offs.tolist(), "wts": wts.tolist(), "zo": zo, "pol": pol,
                "ascending": bool(asc), "S": S, "nsblk": nsblk, "C": C, "nbits": nbits, "fhi_milli": f["fhi_milli"],
                "df_milli": f["df_milli"], "tbin_micro": f["tbin_micro"], "nstot": N}
@@ -168,7 +168,7 @@ def run(v) -> None:
                 g = rng.randrange(1, n + 2)
                 plans.append((g, s, n, rng.choice([0, 0, min(g, n) // 2])))
             files.append({"seed": seed() * 43 + len(files), "S": S, "nsblk": nsblk, "C": 4, "nbits": nbits, "pol": pol, "asc": asc,
-                          "zo": rng.choice([0, 2, 3] if nbits == 4 else [0, 2, 128, 100]), "zo_int": rng.random() < 0.5, "short": short, "fhi_milli": 1400000, "df_milli": rng.choice([1000, 500, 2000]),
+                          "zo": rng.choice([0, 2, 3] if nbits == 4 else [0, 2, 128, 100]), "zo_int": rng.random() < 0.5, "short": short, "bwmode": (None, "abs", "neg")[len(files) % 3], "fhi_milli": 1400000, "df_milli": rng.choice([1000, 500, 2000]),
                           "tbin_micro": rng.choice([1000, 64, 512]), "reduce": red, "plans": plans, "quick": quick})
     specs = [{"id": i, "files": files[i::12]} for i in range(12)]
     res = [t for r in pool.pmap(job, specs, workers=12) for t in r]
